@@ -71,18 +71,64 @@ type Sched struct {
 	Events []Event `json:"events"`
 }
 
-func addrStr(ip, port int) string { return fmt.Sprintf("10.0.0.%d:%d", ip, port) }
-func ipStr(ip int) string         { return fmt.Sprintf("10.0.0.%d", ip) }
+// hostText: the model's host number -> the host text as common.ParseIPAddr yields it. Numbers
+// >= 100 are hosts containing ':' (Model.ConnCtrl.host_has_colon). The pool mixes IPv4, IPv6,
+// loopback, IPv4-mapped IPv6 and texts that are prefixes of one another.
+var hostText = map[int]string{
+	1: "10.0.0.1", 2: "10.0.0.2", 3: "10.0.0.20", 4: "1.2.3.4", 5: "1.2.3.40",
+	101: "2001:db8::7", 102: "::1", 103: "::ffff:1.2.3.4", 104: "2001:db8::70",
+}
+var hostPool = []int{1, 2, 3, 4, 5, 101, 102, 103, 104}
+var hostNum = func() map[string]int {
+	m := map[string]int{}
+	for k, v := range hostText {
+		m[v] = k
+	}
+	return m
+}()
 
-// parseAddr maps "10.0.0.X:port" back to the model's (X, port).
+func ipStr(ip int) string {
+	if h, ok := hostText[ip]; ok {
+		return h
+	}
+	return fmt.Sprintf("10.9.%d.%d", ip/256, ip%256)
+}
+
+// addrStr is what net.Conn.RemoteAddr().String() gives for that host: IPv6 hosts are bracketed.
+func addrStr(ip, port int) string { return net.JoinHostPort(ipStr(ip), strconv.Itoa(port)) }
+
+func hostToNum(h string) (int, bool) {
+	if n, ok := hostNum[h]; ok {
+		return n, true
+	}
+	var a, b int
+	if _, err := fmt.Sscanf(h, "10.9.%d.%d", &a, &b); err == nil {
+		return a*256 + b, true
+	}
+	return 0, false
+}
+
+// parseAddr maps a connection address ("1.2.3.4:p", "[2001:db8::7]:p") back to the model's pair.
 func parseAddr(s string) (int, int, bool) {
 	host, port, err := net.SplitHostPort(s)
-	if err != nil || !strings.HasPrefix(host, "10.0.0.") {
+	if err != nil {
 		return 0, 0, false
 	}
-	x, e1 := strconv.Atoi(strings.TrimPrefix(host, "10.0.0."))
+	x, ok := hostToNum(host)
 	p, e2 := strconv.Atoi(port)
-	return x, p, e1 == nil && e2 == nil
+	return x, p, ok && e2 == nil
+}
+
+// parseJoined maps host + ":" + port (as isHandWithSelf and RemoteListenAddress build it, without
+// brackets) back to the model's pair.
+func parseJoined(s string) (int, int, bool) {
+	i := strings.LastIndex(s, ":")
+	if i < 0 {
+		return 0, 0, false
+	}
+	x, ok := hostToNum(s[:i])
+	p, e2 := strconv.Atoi(s[i+1:])
+	return x, p, ok && e2 == nil
 }
 
 // ---------- shared pieces ----------
@@ -690,6 +736,22 @@ func coqAddrList(l []string) string {
 	return hx.CoqList(s)
 }
 
+func coqJoined(s string) string {
+	ip, port, ok := parseJoined(s)
+	if !ok {
+		return "(999999, 0)"
+	}
+	return fmt.Sprintf("(%d, %d)", ip, port)
+}
+
+func coqJoinedList(l []string) string {
+	var s []string
+	for _, a := range l {
+		s = append(s, coqJoined(a))
+	}
+	return hx.CoqList(s)
+}
+
 func (o obsRec) coqThreads() string {
 	return fmt.Sprintf("%s %d %d", hx.CoqList(o.status), o.winIn, o.winOut)
 }
@@ -701,10 +763,10 @@ func (o obsRec) coqCtrl() string {
 	}
 	own := "None"
 	if o.snap.OwnAddr != "" {
-		own = "(Some " + coqAddr(o.snap.OwnAddr) + ")"
+		own = "(Some " + coqJoined(o.snap.OwnAddr) + ")"
 	}
 	return fmt.Sprintf("%s %s %s %s %s %s %d %s|%d %d",
-		coqAddrList(o.snap.Inbounds), coqAddrList(o.snap.Outbounds), coqAddrList(o.snap.InboundListen),
+		coqAddrList(o.snap.Inbounds), coqAddrList(o.snap.Outbounds), coqJoinedList(o.snap.InboundListen),
 		coqAddrList(o.snap.Connecting), hx.CoqList(peers), own, o.snap.NextConnectId, hx.CoqBool(o.fatal),
 		o.liveIn, o.liveOut)
 }
@@ -784,7 +846,15 @@ func oracle(r runner, cfg Cfg, o obsRec, maxWinIn, maxWinOut int, ips []int) *ve
 		return v
 	}
 	for _, ip := range ips {
-		if v := classify("per-ip-recorded", ctrl.VerifInboundCountWithIp(ipStr(ip)), cfg.MaxPerIP, maxWinIn, false); v != nil {
+		// counted here from the recorded inbound addresses (net.SplitHostPort), not through the
+		// controller's own getInboundCountWithIp
+		n := uint(0)
+		for _, a := range o.snap.Inbounds {
+			if h, _, err := net.SplitHostPort(a); err == nil && h == ipStr(ip) {
+				n++
+			}
+		}
+		if v := classify("per-ip-recorded", n, cfg.MaxPerIP, maxWinIn, false); v != nil {
 			return v
 		}
 	}
@@ -961,10 +1031,10 @@ func genCfg(c *hx.Ctx) Cfg {
 	return Cfg{MaxIn: uint(c.Rng.Intn(4)), MaxOut: uint(c.Rng.Intn(4)), MaxPerIP: per[c.Rng.Intn(len(per))], SelfID: 99}
 }
 
-func genSpawn(c *hx.Ctx, churn bool, outOf4 int) Event {
+func genSpawn(c *hx.Ctx, churn bool, outOf4 int, hosts []int) Event {
 	if churn {
 		// few hosts, many distinct ports, no environment failures: fills the limits quickly
-		e := Event{Kind: "spawn", IP: 1 + c.Rng.Intn(2), Pid: uint64(11 + c.Rng.Intn(8)), LPort: uint16(20338 + c.Rng.Intn(3)),
+		e := Event{Kind: "spawn", IP: hosts[c.Rng.Intn(len(hosts))], Pid: uint64(11 + c.Rng.Intn(8)), LPort: uint16(20338 + c.Rng.Intn(3)),
 			Reserved: true, DialOK: true, HsOK: true}
 		if c.Rng.Intn(4) >= outOf4 {
 			e.Dir = "in"
@@ -975,7 +1045,7 @@ func genSpawn(c *hx.Ctx, churn bool, outOf4 int) Event {
 		}
 		return e
 	}
-	e := Event{Kind: "spawn", IP: 1 + c.Rng.Intn(3), Pid: uint64(11 + c.Rng.Intn(4)), LPort: uint16(20338 + c.Rng.Intn(2)),
+	e := Event{Kind: "spawn", IP: hosts[c.Rng.Intn(len(hosts))], Pid: uint64(11 + c.Rng.Intn(4)), LPort: uint16(20338 + c.Rng.Intn(2)),
 		Reserved: c.Rng.Intn(12) != 0, DialOK: c.Rng.Intn(10) != 0, HsOK: c.Rng.Intn(10) != 0}
 	if c.Rng.Intn(25) == 0 {
 		e.Pid = 99 // the node connects to itself
@@ -1014,6 +1084,27 @@ func genNext(c *hx.Ctx, level string, mode int) nextFn {
 	nThreads := 2 + c.Rng.Intn(4)
 	closeOneIn := 4
 	outOf4 := []int{0, 1, 3, 4}[c.Rng.Intn(4)] // share of outbound attempts in a churn schedule
+	// the hosts of this schedule: 3 of the pool (2 for churn), so that limits per host are reached;
+	// picking neighbours in the pool makes prefix pairs (10.0.0.2 / 10.0.0.20) and v4/v6 mixes common
+	nh := 3
+	if mode == 1 {
+		nh = 2
+	}
+	start := c.Rng.Intn(len(hostPool))
+	var hosts []int
+	for i := 0; i < nh; i++ {
+		hosts = append(hosts, hostPool[(start+i)%len(hostPool)])
+	}
+	if c.Rng.Intn(2) == 0 {
+		hosts[0] = hostPool[5+c.Rng.Intn(4)] // make sure IPv6 remotes are frequent
+	}
+	for _, h := range hosts {
+		if h >= 100 {
+			c.Count("hosts:ipv6")
+		} else {
+			c.Count("hosts:ipv4")
+		}
+	}
 	if churn {
 		nThreads = 5 + c.Rng.Intn(4)
 		closeOneIn = 2
@@ -1040,7 +1131,7 @@ func genNext(c *hx.Ctx, level string, mode int) nextFn {
 			if spawned < nThreads {
 				spawned++
 				tail = 0
-				return genSpawn(c, churn, outOf4), true
+				return genSpawn(c, churn, outOf4, hosts), true
 			}
 			return Event{}, false
 		}
@@ -1048,7 +1139,7 @@ func genNext(c *hx.Ctx, level string, mode int) nextFn {
 		switch {
 		case spawned == 0 || (spawned < nThreads && (x < 2 || len(pend) == 0)):
 			spawned++
-			return genSpawn(c, false, 0), true
+			return genSpawn(c, false, 0, hosts), true
 		case x == 11 && nlive > 0:
 			return Event{Kind: "close", Idx: c.Rng.Intn(nlive + 1)}, true
 		case x == 10 && level == "B":
